@@ -1,1 +1,295 @@
-// harness stub
+//! C12 harness (child module of `astria_sequencer_relayer::relayer::write`, compiled only with `--features verif`).
+//!
+//! Streams of sequencer blocks (sizes tuned around the 1 MB payload bound with incompressible payloads, 0..many rollups,
+//! rollup filters) are pushed through the real `NextSubmission` exactly as `BlobSubmitter::run` does (try_add, Full
+//! push-back into a pending slot, take() when no submission is in flight, take() futures dropped un-polled). Every taken
+//! submission is decoded the way conductor does (brotli -> list -> checked types -> proof audit) and recorded.
+//! /verif/lib/checkers/c12.py judges.
+#![allow(clippy::pedantic, clippy::arithmetic_side_effects, dead_code, unused_imports)]
+
+#[path = "/verif/harness/common/vlog.rs"]
+mod vlog;
+
+use astria_core::{
+    brotli::decompress_bytes,
+    generated::astria::sequencerblock::v1::{
+        SubmittedMetadataList,
+        SubmittedRollupDataList,
+    },
+    primitive::v1::RollupId,
+    protocol::test_utils::ConfigureSequencerBlock,
+    sequencerblock::v1::{
+        SequencerBlock,
+        SubmittedMetadata,
+        SubmittedRollupData,
+    },
+};
+use prost::Message as _;
+use rand_chacha::{
+    rand_core::{
+        RngCore as _,
+        SeedableRng as _,
+    },
+    ChaChaRng,
+};
+use serde_json::json;
+use sha2::Digest as _;
+use telemetry::Metrics as _;
+use vlog::VLog;
+
+use super::conversion::{
+    NextSubmission,
+    Submission,
+    TryAddError,
+};
+use crate::{
+    IncludeRollup,
+    Metrics,
+};
+
+fn below(rng: &mut ChaChaRng, n: u64) -> u64 {
+    if n == 0 { 0 } else { rng.next_u64() % n }
+}
+
+fn rollup(k: u8) -> RollupId {
+    RollupId::new([k; 32])
+}
+
+/// RFC 6962 Merkle tree hash over byte strings (independent of astria-merkle).
+fn rfc6962_root<T: AsRef<[u8]>>(leaves: &[T]) -> [u8; 32] {
+    fn mth<T: AsRef<[u8]>>(l: &[T]) -> [u8; 32] {
+        match l.len() {
+            0 => sha2::Sha256::digest([]).into(),
+            1 => {
+                let mut h = sha2::Sha256::new();
+                h.update([0u8]);
+                h.update(l[0].as_ref());
+                h.finalize().into()
+            }
+            n => {
+                let mut k = 1;
+                while k * 2 < n {
+                    k *= 2;
+                }
+                let mut h = sha2::Sha256::new();
+                h.update([1u8]);
+                h.update(mth(&l[..k]));
+                h.update(mth(&l[k..]));
+                h.finalize().into()
+            }
+        }
+    }
+    mth(leaves)
+}
+
+fn digest(b: &[u8]) -> String {
+    vlog::hex(&sha2::Sha256::digest(b)[..8])
+}
+
+fn make_block(rng: &mut ChaChaRng, height: u32, class: &str) -> (SequencerBlock, serde_json::Value) {
+    let mut sequence_data: Vec<(RollupId, Vec<u8>)> = vec![];
+    // (rollup, payload length) list for the class
+    let mut plan: Vec<(u8, usize)> = vec![];
+    match class {
+        "empty" => {}
+        "tiny" => plan.push((1 + below(rng, 4) as u8, 10 + below(rng, 100) as usize)),
+        "many_rollups" => {
+            for r in 1..=6u8 {
+                for _ in 0..below(rng, 3) {
+                    plan.push((r, below(rng, 3000) as usize));
+                }
+            }
+        }
+        "quarter" => plan.push((1 + below(rng, 3) as u8, 240_000 + below(rng, 20_000) as usize)),
+        "third" => plan.push((1 + below(rng, 3) as u8, 330_000 + below(rng, 10_000) as usize)),
+        "half" => plan.push((1 + below(rng, 3) as u8, 497_000 + below(rng, 6_000) as usize)),
+        "almost_full" => plan.push((1, 990_000 + below(rng, 9_000) as usize)),
+        "oversized" => plan.push((2, 1_010_000 + below(rng, 50_000) as usize)),
+        _ => {
+            plan.push((1, below(rng, 200_000) as usize));
+            plan.push((3, below(rng, 100_000) as usize));
+        }
+    }
+    for (r, n) in plan {
+        let mut d = vec![0u8; n];
+        rng.fill_bytes(&mut d); // incompressible
+        d.extend_from_slice(&height.to_le_bytes());
+        sequence_data.push((rollup(r), d));
+    }
+    let block = ConfigureSequencerBlock {
+        chain_id: Some("sequencer-0".to_string()),
+        height,
+        // unique per block (the default is all zeroes for every block)
+        block_hash: Some(astria_core::sequencerblock::v1::block::Hash::new(sha2::Sha256::digest(rng.next_u64().to_le_bytes()).into())),
+        sequence_data,
+        ..ConfigureSequencerBlock::default()
+    }
+    .make();
+    let mut per_rollup = serde_json::Map::new();
+    for (id, txs) in block.rollup_transactions() {
+        per_rollup.insert(id.to_string(), txs.transactions().iter().map(|t| digest(t)).collect());
+    }
+    let j = json!({"height": height, "class": class, "hash": vlog::hex(block.block_hash().as_bytes()), "rollups": per_rollup});
+    (block, j)
+}
+
+/// Decodes a submission the way conductor does and describes it.
+fn describe(sub: Submission, filter_ids: &[u8]) -> serde_json::Value {
+    let meta_json = serde_json::to_value(sub.input_metadata()).unwrap_or(json!(null));
+    let greatest = sub.greatest_sequencer_height().value();
+    let (num_blocks, num_blobs, compressed, uncompressed) = (sub.num_blocks(), sub.num_blobs(), sub.compressed_size(), sub.uncompressed_size());
+    let blobs = sub.into_blobs();
+    let seq_ns = astria_core::celestia::namespace_v0_from_sha256_of_bytes(b"sequencer-0");
+    let mut metas = vec![];
+    let mut rollups = vec![];
+    let mut problems: Vec<String> = vec![];
+    let mut total_blob_bytes = 0usize;
+    let mut checked_metas: Vec<SubmittedMetadata> = vec![];
+    for b in &blobs {
+        total_blob_bytes += b.data.len();
+        let Ok(raw) = decompress_bytes(&b.data) else {
+            problems.push("blob does not decompress".into());
+            continue;
+        };
+        if b.namespace == seq_ns {
+            match SubmittedMetadataList::decode(&*raw) {
+                Ok(list) => {
+                    for e in list.entries {
+                        match SubmittedMetadata::try_from_raw(e) {
+                            Ok(m) => {
+                                metas.push(json!({"height": m.height().value(), "hash": vlog::hex(m.block_hash().as_bytes()),
+                                    "rollup_ids": m.rollup_ids().map(ToString::to_string).collect::<Vec<_>>()}));
+                                checked_metas.push(m);
+                            }
+                            Err(e) => problems.push(format!("metadata entry rejected: {e}")),
+                        }
+                    }
+                }
+                Err(e) => problems.push(format!("metadata list undecodable: {e}")),
+            }
+        } else {
+            match SubmittedRollupDataList::decode(&*raw) {
+                Ok(list) => {
+                    for e in list.entries {
+                        match SubmittedRollupData::try_from_raw(e) {
+                            Ok(r) => {
+                                let ns_ok = astria_core::celestia::namespace_v0_from_rollup_id(r.rollup_id()) == b.namespace;
+                                // conductor's audit of the rollup data against the metadata with the same block hash
+                                let proof_ok = checked_metas.iter().chain(std::iter::empty()).find(|m| m.block_hash() == r.sequencer_block_hash()).map(|m| {
+                                    r.proof()
+                                        .audit()
+                                        .with_root(*m.rollup_transactions_root())
+                                        .with_leaf_builder()
+                                        .write(r.rollup_id().as_bytes())
+                                        .write(&rfc6962_root(r.transactions()))
+                                        .finish_leaf()
+                                        .perform()
+                                });
+                                rollups.push(json!({"hash": vlog::hex(r.sequencer_block_hash().as_bytes()), "rollup": r.rollup_id().to_string(),
+                                    "txs": r.transactions().iter().map(|t| digest(t)).collect::<Vec<_>>(), "namespace_ok": ns_ok, "proof_ok": proof_ok}));
+                            }
+                            Err(e) => problems.push(format!("rollup entry rejected: {e}")),
+                        }
+                    }
+                }
+                Err(e) => problems.push(format!("rollup list undecodable: {e}")),
+            }
+        }
+    }
+    let _ = filter_ids;
+    json!({"greatest_sequencer_height": greatest, "num_blocks": num_blocks, "num_blobs": num_blobs, "compressed_size": compressed,
+        "uncompressed_size": uncompressed, "sum_blob_bytes": total_blob_bytes, "input_meta": meta_json, "metadata": metas, "rollup_data": rollups, "problems": problems})
+}
+
+#[tokio::test]
+async fn batching() {
+    let log = VLog::open("c12-batching");
+    let (shard, _) = vlog::shard();
+    let metrics: &'static Metrics = Box::leak(Box::new(Metrics::noop_metrics(&()).unwrap()));
+    let scenarios = vlog::env_u64("VERIF_SCENARIOS", 6);
+    let mut rng = ChaChaRng::seed_from_u64(vlog::seed().wrapping_mul(104_729) ^ 0xC12 ^ (shard << 16));
+    for sc in 0..scenarios {
+        // rollup filter: all, or a subset of ids 1..=4
+        let filter_ids: Vec<u8> = match below(&mut rng, 4) {
+            0 => vec![],
+            _ => (1..=4u8).filter(|_| below(&mut rng, 2) == 0).collect(),
+        };
+        use base64::prelude::*;
+        let filter_str = filter_ids.iter().map(|k| BASE64_STANDARD.encode([*k; 32])).collect::<Vec<_>>().join(",");
+        let filter = IncludeRollup::parse(&filter_str).unwrap();
+        let mut next = NextSubmission::new(filter, metrics);
+        let profile = ["small", "around_half", "around_full", "mixed"][below(&mut rng, 4) as usize];
+        let nblocks = 6 + below(&mut rng, 14) as u32;
+        log.ev(json!({"kind": "scenario", "sc": sc, "filter": filter_ids.iter().map(|k| rollup(*k).to_string()).collect::<Vec<_>>(), "profile": profile, "blocks": nblocks}));
+        let mut pending: Option<SequencerBlock> = None;
+        let mut height = 1 + below(&mut rng, 50) as u32;
+        let mut produced = 0;
+        let mut steps = 0;
+        while (produced < nblocks || pending.is_some()) && steps < 400 {
+            steps += 1;
+            // the submitter's select loop: either take (no submission in flight) or receive a block (if capacity)
+            let do_take = pending.is_some() || below(&mut rng, 100) < 25;
+            if do_take {
+                if below(&mut rng, 5) == 0 {
+                    // the take future is created and dropped without being polled (select! chose another branch)
+                    let fut = next.take();
+                    drop(fut);
+                    log.ev(json!({"kind": "take_dropped", "sc": sc}));
+                }
+                match next.take().await {
+                    Some(sub) => log.ev(json!({"kind": "submission", "sc": sc, "sub": describe(sub, &filter_ids)})),
+                    None => log.ev(json!({"kind": "take_none", "sc": sc})),
+                }
+                if let Some(b) = pending.take() {
+                    let h = b.height().value();
+                    match next.try_add(b) {
+                        Ok(()) => log.ev(json!({"kind": "add", "sc": sc, "height": h, "result": "ok", "from_pending": true})),
+                        Err(TryAddError::Full(b)) => {
+                            log.ev(json!({"kind": "add", "sc": sc, "height": h, "result": "full", "from_pending": true}));
+                            pending = Some(*b);
+                        }
+                        Err(TryAddError::OversizedBlock { compressed_size, .. }) => {
+                            log.ev(json!({"kind": "add", "sc": sc, "height": h, "result": "oversized", "compressed_size": compressed_size, "from_pending": true}));
+                        }
+                        Err(e) => log.ev(json!({"kind": "add", "sc": sc, "height": h, "result": format!("err:{e}")})),
+                    }
+                }
+                continue;
+            }
+            if produced >= nblocks {
+                continue;
+            }
+            let class = match profile {
+                "small" => ["empty", "tiny", "many_rollups", "tiny"][below(&mut rng, 4) as usize],
+                "around_half" => ["half", "half", "third", "quarter", "tiny"][below(&mut rng, 5) as usize],
+                "around_full" => ["almost_full", "half", "tiny", "oversized", "third"][below(&mut rng, 5) as usize],
+                _ => ["empty", "tiny", "many_rollups", "quarter", "third", "half", "almost_full", "other"][below(&mut rng, 8) as usize],
+            };
+            let (block, bj) = make_block(&mut rng, height, class);
+            log.ev(json!({"kind": "block_in", "sc": sc, "block": bj}));
+            produced += 1;
+            height += 1;
+            let h = block.height().value();
+            match vlog::guarded(|| next.try_add(block)) {
+                Ok(Ok(())) => log.ev(json!({"kind": "add", "sc": sc, "height": h, "result": "ok"})),
+                Ok(Err(TryAddError::Full(b))) => {
+                    log.ev(json!({"kind": "add", "sc": sc, "height": h, "result": "full"}));
+                    pending = Some(*b);
+                }
+                Ok(Err(TryAddError::OversizedBlock { compressed_size, .. })) => {
+                    // BlobSubmitter::run exits with an error here; the harness records and carries on with the next block
+                    log.ev(json!({"kind": "add", "sc": sc, "height": h, "result": "oversized", "compressed_size": compressed_size}));
+                }
+                Ok(Err(e)) => log.ev(json!({"kind": "add", "sc": sc, "height": h, "result": format!("err:{e}")})),
+                Err(p) => log.ev(json!({"kind": "add", "sc": sc, "height": h, "result": format!("panic:{p}")})),
+            }
+        }
+        // final flush
+        if let Some(sub) = next.take().await {
+            log.ev(json!({"kind": "submission", "sc": sc, "sub": describe(sub, &filter_ids)}));
+        }
+        log.ev(json!({"kind": "scenario_end", "sc": sc, "pending_left": pending.is_some()}));
+        log.flush();
+    }
+    log.end();
+}
